@@ -243,6 +243,7 @@ def r_unitconvert(cx):
     import elems as E
     want_keys = {0: ("xy_in_to_pivot", "pivot_to_xy_out"), 1: ("xy_in_to_pivot", "pivot_to_xy_out"),
                  2: ("z_in_to_pivot", "pivot_to_z_out")}
+    ratios = {}
     for role, fn, op in (("fwd", c.fwd, "Mul"), ("inv", c.inv, "Div")):
         f = cx.f.fn(fn)
         for pt in pertuple.per_tuple_loops(f):
@@ -271,11 +272,50 @@ def r_unitconvert(cx):
                           "unitconvert %s: element %d must be %s by %s*%s (found %s)" % (
                               role, k, "multiplied" if op == "Mul" else "divided", want_keys[k][0], want_keys[k][1], got),
                           cx.where(f.term(bb)["span"]))
+                for k in (0, 2):
+                    if es[k][0] == "bin" and es[k][1] == op:
+                        ratios.setdefault(role, {})[k] = mir.strip_refs(es[k][3])
                 e3 = es[3]
                 ok3 = E.same_elem(e3, ("proj", inp, ("elem", 3)), f, point)
                 cx.ob("R-UNITCONVERT-WIRING", "%s/elem3" % role, ok3, "unitconvert %s leaves the fourth element alone" % role
                       if ok3 else "unitconvert %s changes the fourth element" % role, cx.where(f.term(bb)["span"]),
                       nontrivial=False)
+    # a "nothing to do" short-cut (a return that by-passes the per-tuple loop) must be decided from *both* factors: a
+    # short-cut taken when the horizontal factor alone is 1 skips the vertical conversion
+    import guards
+    for role, fn in (("fwd", c.fwd), ("inv", c.inv)):
+        f = cx.f.fn(fn)
+        heads = [pt.header for pt in pertuple.per_tuple_loops(f)]
+        rets = [b for b in f.reachable() if f.term(b)["k"] == "return"]
+        free = f.reach_from([0], avoid=tuple(heads)) if heads else set()
+        deciders = []
+        for b in sorted(free):
+            t = f.term(b)
+            if t["k"] != "switch":
+                continue
+            sides = [set(f.reach_from([x], avoid=tuple(heads))) for x in set(f.succ[b])]
+            if any(any(r in sd for r in rets) for sd in sides) and any(h in f.reach_from([b]) for h in heads):
+                deciders.append(b)
+        ok = bool(heads)
+        for b in deciders:
+            for x in set(f.succ[b]):
+                if any(h in f.reach_from([x]) for h in heads):
+                    continue
+                # x starts a pure by-pass: what is known there?
+                facts = guards.branch_facts(f, x)
+                sd = guards._side(f, b, x)
+                if sd is not None:
+                    facts |= guards.implied(f, f.operand(f.term(b)["discr"], f.end_point(b)), sd)
+                for k, r in sorted(ratios.get(role, {}).items()):
+                    if not any(_mentions(at, r) for at, _tv in facts):
+                        ok = False
+        if len(ratios.get(role, {})) < 2 and deciders:
+            ok = False
+        cx.ob("R-UNITCONVERT-WIRING", "%s/no-partial-bypass" % role, ok,
+              "unitconvert %s: no return by-passes the per-tuple loop on the strength of one factor alone" % role if ok else
+              "unitconvert %s can return a success count without entering its per-tuple loop, decided from one of the two "
+              "factors only: a conversion that changes only the other group of units (e.g. only the height: `z_in=ft`) is "
+              "skipped as a no-op" % role, cx.where(f.d["span"]))
     # constructor: which unit name feeds which stored factor
     g = cx.f.fn(c.path)
     want = {"xy_in_to_pivot": ("xy_in", False), "pivot_to_xy_out": ("xy_out", True),
@@ -542,3 +582,54 @@ def r_guard_match_agree(cx):
               "adapt: %s: the `_ => 0` arm marked 'cannot happen' is reachable, and axis number 0 indexes "
               "count[(0 - 1) as usize] out of bounds (panic at instantiation)" % why, cx.where(t["span"]))
     cx.count("R-GUARD-MATCH-AGREE", "matches", n)
+
+
+DESIGNATORS = {"e": 1, "n": 2, "u": 3, "f": 4, "w": -1, "s": -2, "d": -3, "p": -4}
+
+
+@rule("T-DESIGNATORS", ["C11"])
+def t_designators(cx):
+    """The documented coordinate archetypes: eastish, northish, upish, futurish are axes 1..4 in the internal order, and
+    westish, southish, downish, pastish their sign-flipped inverses. The designator match of
+    coordinate_order_descriptor assigns exactly e:+1 n:+2 u:+3 f:+4 w:-1 s:-2 d:-3 p:-4."""
+    f = cx.f.fn("inner_op::adapt::coordinate_order_descriptor")
+    n = 0
+    for b in sorted(f.reachable()):
+        t = f.term(b)
+        if t["k"] != "switch" or len(t["targets"]) < 4:
+            continue
+        got = {}
+        for v, tb in t["targets"]:
+            try:
+                ch = chr(int(v))
+            except (ValueError, TypeError, OverflowError):
+                got = None
+                break
+            val = None
+            for i, st in enumerate(f.stmts(tb)):
+                if st["k"] == "assign":
+                    r = f.rvalue(st["rv"], (tb, i))
+                    if r[0] == "const" and isinstance(r[2], int):
+                        val = r[2]
+            got[ch] = val
+        if not got:
+            continue
+        n += 1
+        bad = sorted(ch for ch in set(got) | set(DESIGNATORS) if got.get(ch) != DESIGNATORS.get(ch))
+        cx.ob("T-DESIGNATORS", "coordinate_order_descriptor", not bad,
+              "the eight designators map to the documented signed axis numbers" if not bad else
+              "adapt: designator(s) %s map to %s, the documentation says %s: e.g. `p` (pastish) without its sign flip behaves "
+              "like `f`" % (", ".join(bad), [got.get(c) for c in bad], [DESIGNATORS.get(c) for c in bad]), cx.where(t["span"]))
+    cx.count("T-DESIGNATORS", "tables", n)
+
+
+def _mentions(t, needle):
+    hit = []
+
+    def vis(y):
+        if mir.strip_refs(y) == needle:
+            hit.append(1)
+            return False
+        return not hit
+    mir.walk(t, vis)
+    return bool(hit)
